@@ -60,9 +60,10 @@ enum Kind
     K_READ,
     K_CLOSER,
     K_STAT,
+    K_RENAME,
     K_N
 };
-const char* kKindName[] = {"mkdir", "open_w", "write", "close_w", "open_r", "read", "close_r", "stat"};
+const char* kKindName[] = {"mkdir", "open_w", "write", "close_w", "open_r", "read", "close_r", "stat", "rename"};
 
 struct FaultSpec
 {
@@ -179,6 +180,8 @@ struct Real
     int (*mkdir)(const char*, mode_t);
     int (*open)(const char*, int, ...);
     int (*openat)(int, const char*, int, ...);
+    int (*rename)(const char*, const char*);
+    int (*unlink)(const char*);
 } real;
 
 void init_real()
@@ -192,6 +195,8 @@ void init_real()
     real.mkdir = (decltype(real.mkdir))dlsym(RTLD_NEXT, "mkdir");
     real.open = (decltype(real.open))dlsym(RTLD_NEXT, "open");
     real.openat = (decltype(real.openat))dlsym(RTLD_NEXT, "openat");
+    real.rename = (decltype(real.rename))dlsym(RTLD_NEXT, "rename");
+    real.unlink = (decltype(real.unlink))dlsym(RTLD_NEXT, "unlink");
 }
 
 bool under_condition(const std::string& abs)
@@ -561,7 +566,13 @@ int mkdir(const char* path, mode_t mode)
     auto it = g.fs.find(abs);
     if(it != g.fs.end())
     {
-        // EEXIST on an existing path is ordinary, not a fault
+        // EEXIST on an existing directory is ordinary, not a fault; a regular file in the way of a
+        // directory is a directory creation that cannot succeed
+        if(!it->second.dir)
+        {
+            note_hard("mkdir(" + abs + ") natural EEXIST: a regular file is in the way", true);
+            sim::stats().count("fault.fired.natural.file_in_place_of_directory");
+        }
         errno = EEXIST;
         return -1;
     }
@@ -642,6 +653,79 @@ int lstat(const char* path, struct stat* st)
     std::string abs = norm(path);
     if(!g.active || !in_sim(abs)) return real.lstat(path, st);
     return sim_stat(abs, st);
+}
+
+int rename(const char* from, const char* to)
+{
+    init_real();
+    std::string a = norm(from), b = norm(to);
+    if(!g.active || !in_sim(a) || !in_sim(b)) return real.rename(from, to);
+    FaultSpec* f = on_call(K_RENAME, b);
+    if(under_condition(b) || under_condition(a))
+    {
+        note_hard("rename(" + b + ") environment condition errno " + std::to_string(g.cond_errno), true);
+        errno = g.cond_errno;
+        return -1;
+    }
+    if(yanked())
+    {
+        note_hard("rename(" + b + ") after yank", true);
+        errno = EIO;
+        return -1;
+    }
+    if(f)
+    {
+        f->fired = true;
+        sim::stats().count("fault.fired.rename." + f->outcome);
+        note_hard("rename(" + b + ") " + f->outcome, true);
+        errno = errno_of(f->outcome);
+        return -1;
+    }
+    auto src = g.fs.find(a);
+    if(src == g.fs.end())
+    {
+        note_hard("rename(" + a + ") natural ENOENT", true);
+        errno = ENOENT;
+        return -1;
+    }
+    if(int e = check_parent(b))
+    {
+        note_hard("rename(" + b + ") natural errno " + std::to_string(e), true);
+        errno = e;
+        return -1;
+    }
+    auto dst = g.fs.find(b);
+    if(dst != g.fs.end() && dst->second.dir != src->second.dir)
+    {
+        note_hard("rename(" + b + ") natural " + (dst->second.dir ? "EISDIR" : "ENOTDIR"), true);
+        sim::stats().count("fault.fired.natural.rename_onto_other_kind");
+        errno = dst->second.dir ? EISDIR : ENOTDIR;
+        return -1;
+    }
+    Node n = src->second;
+    g.fs.erase(src);
+    g.fs[b] = n;
+    return 0;
+}
+
+int unlink(const char* path)
+{
+    init_real();
+    std::string a = norm(path);
+    if(!g.active || !in_sim(a)) return real.unlink(path);
+    auto it = g.fs.find(a);
+    if(it == g.fs.end())
+    {
+        errno = ENOENT;
+        return -1;
+    }
+    if(it->second.dir)
+    {
+        errno = EISDIR;
+        return -1;
+    }
+    g.fs.erase(it);
+    return 0;
 }
 
 int open(const char* path, int flags, ...)
@@ -1042,6 +1126,7 @@ struct Ref
 {
     bool ok = false;
     std::map<std::string, std::string> files; // abs path -> content
+    std::set<std::string> dirs;                // directories the fault-free run creates
     std::vector<TraceEntry> trace;
     std::string why;
 };
@@ -1089,6 +1174,8 @@ const Ref& reference(const std::string& schema, long outv, long argv_v = 0)
             first = files;
             r.trace = ro.trace;
             r.ok = true;
+            for(auto& kv : g.fs)
+                if(kv.second.dir && kv.first != "/sim" && kv.first != "/sim/in") r.dirs.insert(kv.first);
         }
         else if(files != first)
         {
@@ -1192,7 +1279,28 @@ void apply_mutation(const Op& op)
             if(refs.empty() || names.empty()) return;
             const Attr& r = attrs[refs[(size_t)(op.uarg(0) % refs.size())]];
             const Attr& s = attrs[names[(size_t)(op.uarg(1) % names.size())]];
-            const std::string v = d.substr(s.val_b, s.val_e - s.val_b);
+            std::string v = d.substr(s.val_b, s.val_e - s.val_b);
+            if(name_of(r) == "valueRef")
+            {
+                // valueRef has the form Enum.Value: pick an enum of the file and one of its values
+                std::vector<std::string> pairs;
+                std::string cur_enum;
+                for(size_t k = 0; k < attrs.size(); k++)
+                {
+                    if(name_of(attrs[k]) != "name") continue;
+                    size_t lt = d.rfind('<', attrs[k].name_b);
+                    if(lt == std::string::npos) continue;
+                    const std::string tag = d.substr(lt + 1, d.find_first_of(" \t\r\n>", lt + 1) - lt - 1);
+                    const std::string val = d.substr(attrs[k].val_b, attrs[k].val_e - attrs[k].val_b);
+                    if(tag == "enum")
+                        cur_enum = val;
+                    else if(tag == "validValue" && !cur_enum.empty())
+                        pairs.push_back(cur_enum + "." + val);
+                    else if(tag != "validValue" && tag != "choice")
+                        cur_enum.clear();
+                }
+                if(!pairs.empty()) v = pairs[(size_t)(op.uarg(1) % pairs.size())];
+            }
             d.replace(r.val_b, r.val_e - r.val_b, v);
         }
         else
@@ -1627,8 +1735,22 @@ Result exec_plan(const Plan& plan)
                     g.fs[*i] = dn;
                 }
                 Node fnode;
-                switch(how % 5)
+                switch(how % 7)
                 {
+                case 5:
+                    // a directory sits where a generated header must go (only sometimes)
+                    if(r.chance(1, 6))
+                    {
+                        fnode.dir = true;
+                        fnode.data.clear();
+                    }
+                    else
+                        fnode.data = kv.second;
+                    break;
+                case 6:
+                    // a regular file sits where one of the output directories must go (decided below)
+                    fnode.data = kv.second;
+                    break;
                 case 4:
                     // a previous run's file that was made read-only (only some of them)
                     fnode.data = kv.second;
@@ -1640,6 +1762,25 @@ Result exec_plan(const Plan& plan)
                 default: fnode.data = kv.second; break; // identical
                 }
                 g.fs[kv.first] = fnode;
+            }
+            if(how % 7 == 6 && !ref.files.empty())
+            {
+                // replace one directory of the tree (with everything below it) by a regular file
+                std::vector<std::string> dirs;
+                for(auto& kv : g.fs)
+                    if(kv.second.dir && kv.first.rfind(out_root_abs(outv), 0) == 0 && kv.first != "/sim" && kv.first != "/sim/in") dirs.push_back(kv.first);
+                if(!dirs.empty())
+                {
+                    const std::string victim = dirs[(size_t)r.below(dirs.size())];
+                    for(auto it = g.fs.begin(); it != g.fs.end();)
+                        if(it->first == victim || it->first.rfind(victim + "/", 0) == 0)
+                            it = g.fs.erase(it);
+                        else
+                            ++it;
+                    Node fn;
+                    fn.data = "not a directory\n";
+                    g.fs[victim] = fn;
+                }
             }
             sim::stats().count("history.prefill");
         }
@@ -1764,6 +1905,17 @@ Result exec_plan(const Plan& plan)
                 }
                 if(ro.rc == 0 && argv_v < 3)
                 {
+                    // every directory of the tree must exist - as a directory
+                    for(auto& dpath : ref->dirs)
+                    {
+                        auto it = g.fs.find(dpath);
+                        if(it == g.fs.end() || !it->second.dir)
+                        {
+                            fail("exit0-directory-missing", "exit 0 but the directory " + dpath + (it == g.fs.end() ? " does not exist" : " is a regular file: its creation failed") + ctx);
+                            break;
+                        }
+                    }
+                    if(res.violation) break;
                     for(auto& kv : ref->files)
                     {
                         std::string path = kv.first;
@@ -1783,12 +1935,9 @@ Result exec_plan(const Plan& plan)
                     }
                     if(res.violation) break;
                 }
-                if(ro.hard.empty() && ro.soft.empty() && ro.rc != 0 && argv_v < 3 && !mutated)
-                {
-                    // a naturally failing configuration (e.g. output dir is a file) has hard faults recorded; anything else is a spurious failure
-                    fail("spurious-failure", "no I/O call failed but sbeppc exited non-zero" + ctx);
-                    break;
-                }
+                // a non-zero exit without any failed call (e.g. a regular file found where a directory is
+                // needed, detected through stat alone) is not against the statement: counted only
+                if(ro.hard.empty() && ro.soft.empty() && ro.rc != 0 && argv_v < 3 && !mutated) sim::stats().count("probe.nonzero_exit_without_failed_call");
             }
             else
             {
@@ -1908,6 +2057,9 @@ const std::vector<EnumPoint>& enumeration(const std::string& tier)
             case K_STAT:
                 for(auto e : {"EACCES", "EIO", "ENAMETOOLONG", "ELOOP"}) add(e);
                 break;
+            case K_RENAME:
+                for(auto e : {"EACCES", "ENOSPC", "EIO", "EROFS"}) add(e);
+                break;
             default: break;
             }
         }
@@ -1963,7 +2115,7 @@ Plan gen_c20(u64 seed, const std::string& tier)
             Op pf;
             pf.name = "prefill";
             pf.s = {wl.chance(1, 2) ? s : schemas[wl.below(schemas.size())]};
-            pf.a = {outv, (long)wl.below(5), (long)wl.below(1000)};
+            pf.a = {outv, (long)wl.below(7), (long)wl.below(1000)};
             p.ops.push_back(pf);
         }
         const bool last = i + 1 == nruns;
@@ -1999,8 +2151,8 @@ Plan gen_c20(u64 seed, const std::string& tier)
                 for(int k = 0; k < nf; k++)
                 {
                     // pick a point from the enumeration alphabet on this schema's trace
-                    int kind = (int)fl.below(7);
-                    static const int kinds[] = {K_MKDIR, K_OPENW, K_WRITE, K_WRITE, K_CLOSEW, K_READ, K_STAT};
+                    int kind = (int)fl.below(8);
+                    static const int kinds[] = {K_MKDIR, K_OPENW, K_WRITE, K_WRITE, K_CLOSEW, K_READ, K_STAT, K_RENAME};
                     kind = kinds[kind];
                     if(!cnt[kind]) continue;
                     EnumPoint e{s, kind, (long)fl.below((u64)cnt[kind]), "", 0};
@@ -2025,6 +2177,7 @@ Plan gen_c20(u64 seed, const std::string& tier)
                         break;
                     case K_CLOSEW: e.outcome = fl.chance(1, 2) ? "KEEP:EIO" : "DROP:ENOSPC"; break;
                     case K_STAT: e.outcome = fl.chance(1, 2) ? "EACCES" : "ELOOP"; break;
+                    case K_RENAME: e.outcome = fl.chance(1, 2) ? "EACCES" : "ENOSPC"; break;
                     default: e.outcome = fl.chance(1, 2) ? "ERR:EIO" : "SHORT"; e.arg = 1 + (long)fl.below(100); break;
                     }
                     p.ops.push_back(fault_op(e));
